@@ -1495,3 +1495,17 @@ def m_int_eq(ex, c, a, m):
 @model(r'<(.+) as PartialEq(<.+>)?>::ne')
 def m_generic_ne(ex, c, a, m):
     return znot(ex.call(c[:-2] + 'eq', a))
+
+
+@model(r'core::num::<impl (i64|i32|isize)>::(unsigned_abs|abs|wrapping_abs)')
+def m_unsigned_abs(ex, c, a, m):
+    x = a[0]
+    w = 32 if m.group(1) == 'i32' else 64
+    if type(x) is int:
+        if m.group(2) == 'abs' and x == -(1 << (w - 1)) and not ex.release:
+            raise Panic('attempt to negate with overflow', ex.cur_fn.short if ex.cur_fn else '')
+        return abs(x) & ((1 << w) - 1)
+    # fork instead of an ite: keeps the terms the solver sees linear
+    if ex.branch(x < 0):
+        return z3.simplify(-x)
+    return x
